@@ -16,10 +16,20 @@ type Tree struct {
 	Kids   []Tree
 }
 
-func L(v int64) Tree          { return Tree{IsLeaf: true, Z: big.NewInt(v)} }
-func LB(v *big.Int) Tree      { return Tree{IsLeaf: true, Z: new(big.Int).Set(v)} }
-func T(kids ...Tree) Tree     { if kids == nil { kids = []Tree{} }; return Tree{Kids: kids} }
-func B(b bool) Tree           { if b { return L(1) }; return L(0) }
+func L(v int64) Tree     { return Tree{IsLeaf: true, Z: big.NewInt(v)} }
+func LB(v *big.Int) Tree { return Tree{IsLeaf: true, Z: new(big.Int).Set(v)} }
+func T(kids ...Tree) Tree {
+	if kids == nil {
+		kids = []Tree{}
+	}
+	return Tree{Kids: kids}
+}
+func B(b bool) Tree {
+	if b {
+		return L(1)
+	}
+	return L(0)
+}
 func Opt(present bool, t Tree) Tree {
 	if present {
 		return T(t)
@@ -188,9 +198,9 @@ func (r *Rng) Range(lo, hi int64) int64 {
 	}
 	return lo + int64(r.Next()%uint64(hi-lo+1))
 }
-func (r *Rng) Bool() bool        { return r.Next()&1 == 1 }
+func (r *Rng) Bool() bool          { return r.Next()&1 == 1 }
 func (r *Rng) Chance(pct int) bool { return r.Intn(100) < pct }
-func (r *Rng) Fork() *Rng        { return NewRng(r.Next()) }
+func (r *Rng) Fork() *Rng          { return NewRng(r.Next()) }
 
 // Pick returns one of the values.
 func Pick[T any](r *Rng, vs ...T) T { return vs[r.Intn(len(vs))] }
